@@ -83,6 +83,8 @@ var curatedFENs = []string{
 	"8/8/8/3k4/8/2nK4/8/8 w - - 0 1",
 	"r3k2r/pppq1ppp/2npbn2/2b1p3/2B1P3/2NPBN2/PPPQ1PPP/R3K2R w KQkq - 4 8",
 	"2kr3r/pppq1ppp/2npbn2/2b1p3/2B1P3/2NPBN2/PPPQ1PPP/R3K2R w KQ - 5 9",
+	"6k1/8/2p5/3pP3/4K3/8/2n5/3r1r2 w - d6 0 2", // in check by the pawn that just jumped: e.p. is the only legal move
+	"5bk1/8/p7/Pp6/K7/7r/8/8 w - b6 0 2",
 	// corner rooks with castling rights under attack by pawns about to promote, knights, bishops, rooks
 	"r3k2r/1P4P1/8/8/8/8/1p4p1/R3K2R w KQkq - 0 1",
 	"r3k2r/1P4P1/8/8/8/8/1p4p1/R3K2R b KQkq - 0 1",
@@ -239,6 +241,13 @@ func genStates(c *caseCtx, n int) []state {
 	for _, f := range curatedFENs {
 		ret = append(ret, mustDecode(f))
 	}
+	if n >= 300 {
+		// checks by a pawn that has just made its double step (en passant among the evasions, often the
+		// only one) and positions in which every legal move is a concession
+		for _, f := range append(epEvasions(c, 30), cramped(c, 20)...) {
+			ret = append(ret, mustDecode(f))
+		}
+	}
 	for len(ret) < n {
 		switch c.r.Intn(3) {
 		case 0, 1:
@@ -258,4 +267,122 @@ func genStates(c *caseCtx, n int) []state {
 		}
 	}
 	return ret[:n]
+}
+
+// cramped builds positions in which the side to move is not in check, its king cannot move, and it has
+// one to four legal moves, none of them a capture: every choice is a concession (typically onto an
+// attacked square). Found by rejection sampling; returns FENs (both colours through mirroring by the caller).
+func cramped(c *caseCtx, n int) []string {
+	var ret []string
+	corners := []board.Square{board.A1, board.H1, board.A8, board.H8, board.B1, board.G1, board.A2, board.H2}
+	for tries := 0; tries < 400*n && len(ret) < n; tries++ {
+		var used [64]bool
+		var pls []board.Placement
+		put := func(col board.Color, pc board.Piece, sq board.Square) bool {
+			if used[sq] || (pc == board.Pawn && (sq.Rank() == board.Rank1 || sq.Rank() == board.Rank8)) {
+				return false
+			}
+			used[sq] = true
+			pls = append(pls, board.Placement{Square: sq, Color: col, Piece: pc})
+			return true
+		}
+		side := board.Color(c.r.Intn(2))
+		put(side, board.King, corners[c.r.Intn(len(corners))])
+		for !put(side.Opponent(), board.King, board.Square(c.r.Intn(64))) {
+		}
+		own := []board.Piece{board.Pawn, board.Pawn, board.Knight, board.Bishop}
+		for k := 0; k < 1+c.r.Intn(2); k++ {
+			put(side, own[c.r.Intn(len(own))], board.Square(c.r.Intn(64)))
+		}
+		theirs := []board.Piece{board.Queen, board.Rook, board.Rook, board.Bishop, board.Knight, board.Pawn, board.Pawn, board.Pawn}
+		for k := 0; k < 3+c.r.Intn(5); k++ {
+			put(side.Opponent(), theirs[c.r.Intn(len(theirs))], board.Square(c.r.Intn(64)))
+		}
+		pos, err := board.NewPosition(pls, 0, 0)
+		if err != nil || pos == nil || pos.IsChecked(side) || pos.IsChecked(side.Opponent()) {
+			continue
+		}
+		ms := legalMoves(pos, side)
+		if len(ms) == 0 || len(ms) > 4 {
+			continue
+		}
+		ok := true
+		for _, m := range ms {
+			if m.Piece == board.King || m.IsCapture() {
+				ok = false
+			}
+		}
+		if !ok {
+			continue
+		}
+		ret = append(ret, fen.Encode(pos, side, 0, 1))
+	}
+	return ret
+}
+
+// epEvasions builds positions in which the side to move is in check from a pawn that has just made
+// its double step and may capture it en passant; the other evasions are restricted by random enemy
+// pieces, so that en passant is often the only legal move (or there is none: mate).
+func epEvasions(c *caseCtx, n int) []string {
+	var ret []string
+	for tries := 0; tries < 200*n && len(ret) < n; tries++ {
+		var used [64]bool
+		var pls []board.Placement
+		put := func(col board.Color, pc board.Piece, sq board.Square) bool {
+			if sq >= 64 || used[sq] || (pc == board.Pawn && (sq.Rank() == board.Rank1 || sq.Rank() == board.Rank8)) {
+				return false
+			}
+			used[sq] = true
+			pls = append(pls, board.Placement{Square: sq, Color: col, Piece: pc})
+			return true
+		}
+		side := board.Color(c.r.Intn(2)) // the side in check
+		// the checking pawn stands on its fourth rank (seen from its own side) on file pf
+		pf := board.File(c.r.Intn(8))
+		pawnRank, kingRank, epRank := board.Rank5, board.Rank4, board.Rank6 // black pawn checks the white king
+		if side == board.Black {
+			pawnRank, kingRank, epRank = board.Rank4, board.Rank5, board.Rank3
+		}
+		var kf []board.File
+		if pf > 0 {
+			kf = append(kf, pf-1)
+		}
+		if pf < 7 {
+			kf = append(kf, pf+1)
+		}
+		// square numbering: H1 = 0, so file index runs against the letter; use the constructors
+		psq := board.NewSquare(pf, pawnRank)
+		ksq := board.NewSquare(kf[c.r.Intn(len(kf))], kingRank)
+		put(side.Opponent(), board.Pawn, psq)
+		put(side, board.King, ksq)
+		// the capturing pawn beside the checking pawn
+		var cf []board.File
+		if pf > 0 {
+			cf = append(cf, pf-1)
+		}
+		if pf < 7 {
+			cf = append(cf, pf+1)
+		}
+		if !put(side, board.Pawn, board.NewSquare(cf[c.r.Intn(len(cf))], pawnRank)) {
+			continue
+		}
+		for !put(side.Opponent(), board.King, board.Square(c.r.Intn(64))) {
+		}
+		theirs := []board.Piece{board.Queen, board.Rook, board.Rook, board.Bishop, board.Knight, board.Pawn}
+		for k := 0; k < 2+c.r.Intn(5); k++ {
+			put(side.Opponent(), theirs[c.r.Intn(len(theirs))], board.Square(c.r.Intn(64)))
+		}
+		ep := board.NewSquare(pf, epRank)
+		origin := board.NewSquare(pf, epRank+(epRank-pawnRank)) // where the pawn came from: must be empty, as the e.p. square
+		if used[ep] || used[origin] {
+			continue
+		}
+		pos, err := board.NewPosition(pls, 0, ep)
+		if err != nil || pos == nil || !pos.IsChecked(side) || pos.IsChecked(side.Opponent()) {
+			continue
+		}
+		// the pawn must be the only checker, or at least the position must be reachable-looking: keep all
+		ret = append(ret, fen.Encode(pos, side, 0, 2))
+	}
+	return ret
 }
